@@ -41,6 +41,9 @@ def index_chain(n):
         elif n.get("k") == "CXXMemberCallExpr" and n["c"][0].get("n") == "at":
             idx.append(n["c"][1])
             n = n["c"][0]["c"][0]
+        elif n.get("k") == "CXXMemberCallExpr" and n["c"][0].get("n") in ("back", "front") and len(n["c"]) == 1:
+            idx.append(n)       # the last / first element: an element access without a written index
+            n = n["c"][0]["c"][0]
         else:
             break
     return n, idx[::-1]
